@@ -3,8 +3,8 @@ package c06
 
 import (
 	"fmt"
-	"os"
 	"math/rand"
+	"os"
 	"sort"
 	"strings"
 	"time"
